@@ -16,7 +16,7 @@
 EXTENDS Integers, Sequences, FiniteSets, TLC
 
 Has(r, k) == k \in DOMAIN r
-SVal(x) == [t |-> "s", v |-> x]
+SVal(x) == [t |-> "s", v |-> x, y |-> "s"]     \* scalars travel as strings with a type tag (harness/world: S)
 ZVal == [t |-> "z"]
 Absent == [t |-> "absent"]
 MinOf(S) == CHOOSE x \in S : \A y \in S : x <= y
